@@ -7,9 +7,9 @@ while true; do
     [ -f $d/meta.json ] && [ -f $d/patch.diff ] && [ -f $d/demo.py ] || continue
     P=${d#/tmp/seedout_}
     [ -e $d/.tried ] && continue
-    [ -d /verif/seeded/$P-1 ] && { touch $d/.tried; continue; }
+    [ -d /verif/seeded/$P-1 ] && { mkdir $d/.tried 2>/dev/null; continue; }
+    mkdir $d/.tried 2>/dev/null || continue   # atomic claim (several pipeline workers may run)
     sleep 20   # let the seeder finish writing
-    touch $d/.tried
     echo "=== $(date +%H:%M) verify $P" >> /tmp/seed_pipeline.log
     # rebase the patch onto the current HEAD with fuzz if it does not apply cleanly
     if ! git -C /repo apply --check $d/patch.diff 2>/dev/null; then
@@ -17,7 +17,7 @@ while true; do
       git -C /repo worktree add -q /tmp/rb_$P HEAD && (cd /tmp/rb_$P && patch -p1 --fuzz=3 < $d/patch.diff >> /tmp/seed_pipeline.log 2>&1 && git diff > $d/patch.rebased && cp $d/patch.rebased $d/patch.diff)
       git -C /repo worktree remove --force /tmp/rb_$P 2>/dev/null
     fi
-    SUITE_N=4 timeout 3600 tools/seed_verify.sh $P 2>&1 | grep -v WARNING | tail -6 >> /tmp/seed_pipeline.log
+    SUITE_N=6 timeout 3600 tools/seed_verify.sh $P 2>&1 | grep -v WARNING | tail -6 >> /tmp/seed_pipeline.log
     git -C /repo worktree remove --force /tmp/sv_$P-1 2>/dev/null
     git -C /repo worktree remove --force /tmp/seed_$P 2>/dev/null
   done
@@ -25,6 +25,7 @@ while true; do
     ID=$(basename $(dirname $m)); P=${ID%-*}
     grep -q "^READY = True" harness/props/${P,,}.py 2>/dev/null || continue
     grep -q '"check"' $m && continue
+    mkdir /tmp/se_claim_$ID 2>/dev/null || continue
     echo "=== $(date +%H:%M) eval $ID" >> /tmp/seed_pipeline.log
     timeout 1500 tools/seed_eval.sh $ID 2>&1 | grep -v WARNING | tail -2 >> /tmp/seed_pipeline.log
   done
